@@ -59,6 +59,8 @@ def sweeps(tier, rng):
     for lo in range(0, len(cvals), 9000):        # one TLC run per 9000 values: a set literal of 10^5 records takes SANY an hour
         out.append(sweep(cvals[lo:lo + 9000], [['html_quote']], forms=('entity',)))
     out.append(sweep(cvals[::7], [[]], fmts=('', 'html-quote'), forms=('name',)))
+    # the entity with an empty modifier list, &dtml.-x;, is the plain insertion
+    out.append(sweep(cvals[::11] + [text(x_) for x_ in ('a<b', '&amp;', "it's \"q\" > &")], [[]], forms=('entity', 'name')))
     # values that are not strings: inserted as their str() form, which is escaped like any text
     ov = [strobj(x) for x in ('R&D', "<0.05 'p'", 'a"b', 'x>y & z', 'plain', "it's", '<<>>', 'A&B<C>"D\'E')]
     out.append(sweep(ov, [['html_quote'], []], fmts=('', 'html-quote'), forms=('entity', 'name', 'expr')))
